@@ -277,6 +277,8 @@ class World:
         if step[3] % 3 == 2 and n:
             # the last column holds days, one of them missing (date -> datetime promotion inside a table)
             cols[names[-1]] = [None if i == step[1] % n else _date(2020, 1, 1 + (i % 27)) for i in range(n)]
+            if step[2] % 4 == 3:
+                cols[names[-1]] = [None if x is None else _datetime(x.year, x.month, x.day) for x in cols[names[-1]]]
         si.info.update(cols=cols)
         if step[3] % 3 == 1 and n:
             # the first column is handed over as one of the caller-owned tuples (vectors built over it may be alive):
@@ -556,7 +558,10 @@ class World:
         if a is None or b is None or not a.obj.cols() or not b.obj.cols():
             return None
         kind = ["inner_join", "join", "full_join"][step[3] % 3]
-        return self._derive("join", a, lambda: getattr(a.obj, kind)(b.obj, a.obj.cols()[0], b.obj.cols()[0], expect="many_to_many"), others=[b])
+        # mostly the first columns; otherwise any pair (the last columns of the world's tables may hold days / datetimes)
+        ka = 0 if step[2] % 3 else (len(a.obj.cols()) - 1)
+        kb = 0 if step[3] % 4 else (len(b.obj.cols()) - 1)
+        return self._derive("join", a, lambda: getattr(a.obj, kind)(b.obj, a.obj.cols()[ka], b.obj.cols()[kb], expect="many_to_many"), others=[b])
 
     def _agg(self, name, step):
         a = self.pick(step[1], "table")
@@ -766,6 +771,12 @@ class World:
         wrong_len = (step[3] % 7 == 0) and form == "list"
         if wrong_len:
             val = val + [0]
+        elif form == "list" and isinstance(key, slice) and m == n and n and step[3] % 2 == 1:
+            # every position is overwritten, and the values come as one of the caller-owned tuples (vectors built over it may
+            # be alive): the written vector owns its storage all the same
+            fits = [tp for tp, _tok in self.tuples.values() if len(tp) == n]
+            if fits:
+                val = fits[0]
         si = StepInfo(name, "write")
         si.operands = [a]
         si.may_change = self.write_set(a)
@@ -817,6 +828,8 @@ class World:
             if not n:
                 return (0,), 1, None
             idx = [step[2] % n, step[3] % n]
+            if step[3] % 5 == 4:
+                idx[1] = n + 1                  # a position that does not exist: the whole assignment is refused
             if step[3] % 3 == 2:
                 # the positions come as an int vector the program keeps (negative positions included): a bystander of the write
                 kv = S.Vector([idx[0] - n, idx[1]])
@@ -877,6 +890,9 @@ class World:
         def make(t):
             c = step[2] % len(t.cols())
             n = len(t) + (1 if step[3] % 6 == 0 else 0)
+            fits = [tp for tp, _tok in self.tuples.values() if len(tp) == n]
+            if fits and step[3] % 3 == 1:
+                return (slice(None), c), fits[0], None          # the column's new cells are handed over as a caller-owned tuple
             return (slice(None), c), self.vals(step, n), None
         return self._twrite("tset_col", step, make)
 
